@@ -43,6 +43,7 @@ CONSTANTS
   Acts,         \* subset of {"conf", "confmissing", "hosts", "hostsnull", "hostsmissing", "clearhosts", "opt"}
   KnownNdotsReset, \* TRUE: tolerate the known finding (ndots forgotten when a search/domain line is applied)
   RandomFiles,  \* TRUE: files are random sequences of MaxLines-bounded length (simulation), FALSE: all files
+  NlSet,        \* subset of {0, 1}: file ends without / with a newline
   HostDomain    \* the domain part of gethostname() on the test machine ("" if none)
 
 VARIABLES st, hist
@@ -306,37 +307,37 @@ Files(idx) == IF RandomFiles
 
 
 Conf ==
-  /\ "conf" \in Acts
-  /\ \E fl \in FlagSet : \E ls \in Files(ConfIdx) : \E nl \in {0, 1} :
+  /\ Len(hist) < D /\ "conf" \in Acts
+  /\ \E fl \in FlagSet : \E ls \in Files(ConfIdx) : \E nl \in NlSet :
        LET S1 == ConfEpilogue(ApplyConf(st, ls, fl), fl)
            S0 == ApplyConf(st, ls, fl)
        IN /\ st' = S1
-          /\ hist' = Append(hist, [a |-> "conf", fl |-> fl, ls |-> ls, lines |-> Texts(ConfLines, ls), nl |-> nl,
+          /\ hist' = Append(hist, [a |-> "conf", fl |-> fl, ls |-> ls, nl |-> nl,
                                    o |-> Obs(S1, ConfRet(S0, fl))])
 ConfMissing ==      \* the file does not exist: "assume a local resolver"
-  /\ "confmissing" \in Acts
+  /\ Len(hist) < D /\ "confmissing" \in Acts
   /\ \E fl \in FlagSet :
        LET S1 == [st EXCEPT !.ns = IF Has(fl, F_NS) /\ ~Has(fl, F_NODEFAULT) THEN @ \cup {"127.0.0.1:53"} ELSE @]
            S2 == IF Has(fl, F_SEARCH) THEN SetSearch(S1, FromHost) ELSE S1
        IN /\ st' = S2
           /\ hist' = Append(hist, [a |-> "confmissing", fl |-> fl, o |-> Obs(S2, {1})])
 Hosts ==
-  /\ "hosts" \in Acts
-  /\ \E ls \in Files(HostIdx) : \E nl \in {0, 1} :
+  /\ Len(hist) < D /\ "hosts" \in Acts
+  /\ \E ls \in Files(HostIdx) : \E nl \in NlSet :
        LET S1 == [st EXCEPT !.hosts = ApplyHosts(@, ls)]
        IN /\ st' = S1
-          /\ hist' = Append(hist, [a |-> "hosts", ls |-> ls, lines |-> Texts(HostLines, ls), nl |-> nl, o |-> Obs(S1, {0})])
+          /\ hist' = Append(hist, [a |-> "hosts", ls |-> ls, nl |-> nl, o |-> Obs(S1, {0})])
 HostsNull ==
-  /\ "hostsnull" \in Acts
+  /\ Len(hist) < D /\ "hostsnull" \in Acts
   /\ LET S1 == [st EXCEPT !.hosts = @ \o Localhost]
      IN /\ st' = S1 /\ hist' = Append(hist, [a |-> "hostsnull", o |-> Obs(S1, {0})])
 ClearHosts ==
-  /\ "clearhosts" \in Acts
+  /\ Len(hist) < D /\ "clearhosts" \in Acts
   /\ LET S1 == [st EXCEPT !.hosts = <<>>]
      IN /\ st' = S1 /\ hist' = Append(hist, [a |-> "clearhosts", o |-> Obs(S1, {0})])
 Opt ==
-  /\ "opt" \in Acts
-  /\ \E i \in OptIdx :
+  /\ Len(hist) < D /\ "opt" \in Acts
+  /\ \E i \in (IF RandomFiles THEN {RandomElement(OptIdx)} ELSE OptIdx) :
        LET c == OptCalls[i]
            b == BaseName(c.n)
            S1 == SetOpt(st, b, c.v)
@@ -372,5 +373,8 @@ LastSearchWins ==
        IN ss # <<>> => st'.search = ConfLines[ss[Len(ss)]].d]_vars
 
 GenConstraint == Len(hist) <= D
-Emit == (Len(hist) >= 1) => PrintT(ToJson(hist))
+(* the file text travels with the printed history only (not with the state) *)
+WithText(h) == IF h.a = "conf" THEN h @@ [lines |-> Texts(ConfLines, h.ls)]
+               ELSE IF h.a = "hosts" THEN h @@ [lines |-> Texts(HostLines, h.ls)] ELSE h
+Emit == (Len(hist) >= 1) => PrintT(ToJson([i \in 1..Len(hist) |-> WithText(hist[i])]))
 =============================================================================
